@@ -454,6 +454,25 @@ int main(int argc, char** argv) {
 		for (auto& m : api) g_models.push_back(m);
 	}
 
+	if (A.has("probe")) { // timing aid (stderr only)
+		for (auto& m : g_models) {
+			double t0 = vf::now();
+			NifFile n;
+			must_load(n, m);
+			double t1 = vf::now();
+			Fields f = snap::model_snapshot(n);
+			double t2 = vf::now();
+			std::string b = s1::save(n, true);
+			double t3 = vf::now();
+			NifFile c(n);
+			double t4 = vf::now();
+			fprintf(stderr, "%-50s %7zu B %4u blocks %2zu shapes: load %.1f ms, snapshot %.1f ms (%zu fields), save %.1f ms, copy %.1f ms\n", m.name.c_str(), m.bytes.size(),
+					n.GetHeader().GetNumBlocks(), n.GetShapes().size(), (t1 - t0) * 1e3, (t2 - t1) * 1e3, f.size(), (t3 - t2) * 1e3, (t4 - t3) * 1e3);
+		}
+		vf::finish(top);
+		return 0;
+	}
+
 	vf::PoolCfg pc;
 	pc.jobs = A.jobs;
 	pc.rundir = A.rundir;
